@@ -3,6 +3,7 @@ C12 — FIFO trace theorem: process_io, the cycle, the harness actions and whole
 hence `judgeFifo (events sc cs) = []` for every history whose sent bytes are plain (`plainCmds`).
 -/
 import NV.C12.Fifo4
+import NV.C12.Ovf
 
 namespace NV.C12
 
@@ -41,11 +42,15 @@ theorem G_accept (s : FState) (w : World) (h : G s w) : G s (accept w (w.naccept
     have : w.naccepted < u := by simp only [accept] at hu; omega
     exact h.fresh u this
 
-theorem G_userIO (s : FState) (w : World) (u : Nat) (h : G s w) : G s (userIO w u) := by
+theorem G_userIO (s : FState) (w : World) (u : Nat) (h : G s w) (hno : (userIO w u).overflow = false) :
+    G s (userIO w u) := by
+  have hroom := (userIO_ovf w u hno).2
   unfold userIO
   dsimp only
   split
   · rename_i hne
+    have hroom' : roomShort (w.users.get u).buf.length = false := hroom (by simpa using hne)
+    simp only [hroom', Bool.false_eq_true, if_false]
     have hrxne : (w.net.get u).rx ≠ [] := by
       intro hh; rw [hh] at hne; simp at hne
     have hu : u ≤ w.naccepted := by
@@ -98,14 +103,14 @@ theorem userIO_interactive (w : World) (u x : Nat) (h : (userIO w u).interactive
     · simp only [World.interactive, removeUser_contains, Bool.and_eq_true] at h; exact h.1
     · exact h
 
-theorem fold_userIO (L : List Nat) (w : World) (s : FState) (h : G s w) :
+theorem fold_userIO (L : List Nat) (w : World) (s : FState) (h : G s w) (hno : (L.foldl userIO w).overflow = false) :
     G s (L.foldl userIO w) ∧ (∀ u, u ∈ L → ((L.foldl userIO w).net.get u).rx = []) ∧
     (∀ x, (w.net.get x).rx = [] → ((L.foldl userIO w).net.get x).rx = []) ∧
     (∀ x, (L.foldl userIO w).interactive x = true → w.interactive x = true) := by
   induction L generalizing w with
   | nil => exact ⟨h, (fun _ hu => by cases hu), fun _ hx => hx, fun _ hx => hx⟩
   | cons u r ih =>
-    obtain ⟨i1, i2, i3, i4⟩ := ih (userIO w u) (G_userIO s w u h)
+    obtain ⟨i1, i2, i3, i4⟩ := ih (userIO w u) (G_userIO s w u h (fold_userIO_ovf r _ hno)) hno
     refine ⟨i1, ?_, ?_, ?_⟩
     · intro x hx
       rcases List.mem_cons.mp hx with hx | hx
@@ -114,8 +119,9 @@ theorem fold_userIO (L : List Nat) (w : World) (s : FState) (h : G s w) :
     · intro x hx; exact i3 x (userIO_rx_keep w u x hx)
     · intro x hx; exact userIO_interactive w u x (i4 x hx)
 
-theorem G_processIO (s : FState) (w : World) (h : G s w) :
+theorem G_processIO (s : FState) (w : World) (h : G s w) (hno : (processIO w).1.overflow = false) :
     G ((processIO w).2.foldl fifoStep s) (processIO w).1 ∧ Drained (processIO w).1 := by
+  revert hno
   unfold processIO
   dsimp only
   have hmem : ∀ x, w.interactive x = true → x ∈ w.slots.filterMap id := by
@@ -123,7 +129,8 @@ theorem G_processIO (s : FState) (w : World) (h : G s w) :
     simp only [World.interactive, List.contains_iff_mem] at hx
     exact List.mem_filterMap.mpr ⟨some x, hx, rfl⟩
   split
-  · obtain ⟨f1, f2, f3, f4⟩ := fold_userIO (w.slots.filterMap id) (accept w (w.naccepted + 1)) s (G_accept s w h)
+  · intro hno
+    obtain ⟨f1, f2, f3, f4⟩ := fold_userIO (w.slots.filterMap id) (accept w (w.naccepted + 1)) s (G_accept s w h) hno
     refine ⟨by simpa [fifoStep] using f1, ?_⟩
     intro x hx
     have hx1 := f4 x hx
@@ -141,19 +148,21 @@ theorem G_processIO (s : FState) (w : World) (h : G s w) :
       subst he
       apply f3
       exact (h.fresh _ (Nat.lt_succ_self _)).2
-  · obtain ⟨f1, f2, _, f4⟩ := fold_userIO (w.slots.filterMap id) w s h
+  · intro hno
+    obtain ⟨f1, f2, _, f4⟩ := fold_userIO (w.slots.filterMap id) w s h hno
     refine ⟨by simpa using f1, ?_⟩
     intro x hx
     exact f2 x (hmem x (f4 x hx))
 
-theorem G_cycle (sc : Scripts) (w : World) (s : FState) (h : G s w) :
+theorem G_cycle (sc : Scripts) (w : World) (s : FState) (h : G s w) (hno : (cycleStep sc w).1.overflow = false) :
     G ((cycleStep sc w).2.foldl fifoStep s) (cycleStep sc w).1 := by
+  have hno1 := (cycleStep_ovf sc w hno).1
   unfold cycleStep
   dsimp only
   simp only [List.foldl_append, List.foldl_cons, List.foldl_nil]
   have h1 : G s { w with cycle := w.cycle + 1, users := grantAll w.users w.slots } :=
     G_congr s w _ h (fun x => grantAll_core w.users w.slots x) rfl rfl
-  obtain ⟨p1, p2⟩ := G_processIO s _ h1
+  obtain ⟨p1, p2⟩ := G_processIO s _ h1 hno1
   have hb : fifoStep (fifoStep s (Ev.begin (w.cycle + 1))) (Ev.poll (w.cycle + 1) (pollBlocks (hasPending w))) = s := rfl
   rw [hb]
   have hl := G_cmdLoop sc (NV.Gen.C12.loopCalls (connectedUsers w) w.maxUsers) _ _ p1 p2
@@ -163,22 +172,27 @@ theorem G_cycle (sc : Scripts) (w : World) (s : FState) (h : G s w) :
     · simpa [fifoStep] using hl
     · simpa [fifoStep] using hl
 
-theorem G_cycleRun (sc : Scripts) (f : Nat) (w : World) (s : FState) (h : G s w) :
+theorem G_cycleRun (sc : Scripts) (f : Nat) (w : World) (s : FState) (h : G s w)
+    (hno : (cycleRun sc f w).1.overflow = false) :
     G ((cycleRun sc f w).2.foldl fifoStep s) (cycleRun sc f w).1 :=
-  cycleRun_fold' sc fifoStep G (fun s w hh => G_cycle sc w s hh)
-    (fun s w hh => G_congr s w _ hh (fun _ => rfl) rfl rfl)
-    (fun s w hh => G_congr s w _ hh (fun _ => rfl) rfl rfl) f w s h
+  cycleRun_fold' sc fifoStep (fun s w => w.overflow = false → G s w)
+    (fun s w hh hn => G_cycle sc w s (hh (cycleStep_ovf sc w hn).2) hn)
+    (fun s w hh hn => G_congr s w _ (hh hn) (fun _ => rfl) rfl rfl)
+    (fun s w hh hn => G_congr s w _ (hh hn) (fun _ => rfl) rfl rfl) f w s (fun _ => h) hno
 
 theorem G_step (sc : Scripts) (w : World) (s : FState) (c : Cmd) (h : G s w)
-    (hc : (match c with | .send _ d => d.all plainChar | _ => true) = true) :
+    (hc : (match c with | .send _ d => d.all plainChar | _ => true) = true)
+    (hno : (step sc w c).1.overflow = false) :
     G ((step sc w c).2.foldl fifoStep s) (step sc w c).1 := by
+  revert hno
   unfold step
   split
-  · exact h
+  · exact fun _ => h
   · cases c with
-    | cycle => exact G_cycleRun sc _ w s h
-    | conn => exact G_congr s w _ h (fun _ => rfl) rfl rfl
+    | cycle => exact fun hno => G_cycleRun sc _ w s h hno
+    | conn => exact fun _ => G_congr s w _ h (fun _ => rfl) rfl rfl
     | close u =>
+      intro _
       dsimp only
       split
       · refine ⟨?_, ?_, ?_⟩
@@ -213,11 +227,12 @@ theorem G_step (sc : Scripts) (w : World) (s : FState) (c : Cmd) (h : G s w)
           rw [hs]; exact h.clean
       · exact h
     | send u d =>
+      intro _
       dsimp only at hc ⊢
       split
       · rename_i hcond
         simp only [Bool.and_eq_true, decide_eq_true_eq] at hcond
-        have hu : u ≤ w.naccepted := hcond.1.1.2
+        have hu : u ≤ w.naccepted := hcond.1.1.1.1.1.2
         refine ⟨?_, ?_, h.clean⟩
         · intro x
           simp only [List.foldl_cons, List.foldl_nil, fifoStep, get_upd]
@@ -232,14 +247,16 @@ theorem G_step (sc : Scripts) (w : World) (s : FState) (c : Cmd) (h : G s w)
           exact h.fresh x hx'
       · exact h
 
-theorem G_run (sc : Scripts) (cs : List Cmd) (w : World) (s : FState) (h : G s w) (hp : plainCmds cs = true) :
+theorem G_run (sc : Scripts) (cs : List Cmd) (w : World) (s : FState) (h : G s w) (hp : plainCmds cs = true)
+    (hno : (run sc w cs).1.overflow = false) :
     G ((run sc w cs).2.foldl fifoStep s) (run sc w cs).1 := by
   induction cs generalizing w s with
   | nil => exact h
   | cons c r ih =>
     simp only [plainCmds, List.all_cons, Bool.and_eq_true] at hp
-    simp only [run, List.foldl_append]
-    exact ih _ _ (G_step sc w s c h hp.1) (by simpa [plainCmds] using hp.2)
+    have hno1 := run_ovf_head sc c r w hno
+    simp only [run, List.foldl_append] at hno ⊢
+    exact ih _ _ (G_step sc w s c h hp.1 hno1) (by simpa [plainCmds] using hp.2) hno
 
 theorem G_init : G {} {} :=
   ⟨fun _ => QInv_init, fun _ _ => ⟨rfl, rfl⟩, rfl⟩
@@ -248,9 +265,10 @@ theorem G_init : G {} {} :=
     every script oracle, each buffered command executed by the model is the oldest unconsumed input of its user - a
     complete line in line mode, everything typed so far in single-char mode: order, no loss, no duplication, through
     mode switches, reframing, kicks and command() calls. -/
-theorem judgeFifo_events (sc : Scripts) (cs : List Cmd) (hp : plainCmds cs = true) : judgeFifo (events sc cs) = [] := by
+theorem judgeFifo_events (sc : Scripts) (cs : List Cmd) (hp : plainCmds cs = true)
+    (hno : (run sc {} cs).1.overflow = false) : judgeFifo (events sc cs) = [] := by
   unfold judgeFifo events
-  rw [(G_run sc cs {} {} G_init hp).clean]
+  rw [(G_run sc cs {} {} G_init hp hno).clean]
   rfl
 
 end NV.C12
